@@ -1,6 +1,11 @@
 """Source of MANIFEST.json (python engine/manifest_gen.py)."""
 REALS = "C doubles / numpy float64 are decided as exact reals (rounding is outside the claim); geometry is concrete and listed in the evidence; "
 CHECKS = [
+    {"id": "C11", "engine": "llsym+symnp",
+     "technique": "symbolic execution of the tetrahedron-method IR (_n/_g/_I/_J, sort + case split by path forking, grid-index arithmetic) on z3 Reals/Ints; NRA range/sum/monotonicity/continuity queries, derivative identities by tree differentiation of the executed terms, C==Python per case, LRA tiling queries on the tables, LIA on grid lookup",
+     "text": "Bounded symbolic model checking of the tetrahedron method: for all ordered vertex frequencies and omega in each case the weights are in range, sum to one, n is monotone/continuous with g its derivative and I g the derivative of J n; every sort/case path of thm_get_integration_weight returns the case formula of the sorted vertices; the tables are four translates of six microcell-tiling tetrahedra per main diagonal and equal the Python tables; grid lookup equals the documented index for all addresses in [-2N,2N].",
+     "design_ref": "DESIGN.md 3/C11",
+     "note": REALS + "degenerate vertices and omega on a vertex excluded; smearing DOS and projected-DOS sum rule not encoded; a few NRA queries (middle case) stay inconclusive and are reported as such."},
     {"id": "C13", "engine": "llsym", "category": "translation_validation",
      "technique": "LLVM-IR symbolic interpretation of all 19 kernels from the real glue: (a) recorded real calls re-executed with full memory/overflow obligations and compared with the compiled build, (b) symbolic index maps under the Python-layer contract with bounds obligations discharged by z3 (LIA+arrays) and ASan/UBSan replay, (c) two-symbolic-iteration race queries on every clang-outlined OpenMP body",
      "text": "Translation validation of the compiled kernels against the interpreter's semantics of their own IR plus bounded symbolic model checking of memory safety (all index-map values within the Python contract, small shapes) and of data-race freedom (any two iterations of each of the 11 parallel loops), which with per-iteration determinism gives independence of thread count; OpenMP-lowered IR equals serial IR on one thread.",
@@ -38,7 +43,7 @@ CHECKS = [
      "note": REALS + "clang -O0 IR semantics as implemented by engine/llsym.py, validated at start against the compiled code; nanobind itself replaced by a stand-in header."},
 ]
 _NA = "not yet claimed in this revision (check under construction; see DESIGN.md section 3)"
-NOT_APPLICABLE = [{"property_id": "C%02d" % k, "reason": _NA} for k in range(1, 21) if k not in (2, 3, 4, 6, 7, 10, 13)]
+NOT_APPLICABLE = [{"property_id": "C%02d" % k, "reason": _NA} for k in range(1, 21) if k not in (2, 3, 4, 6, 7, 10, 11, 13)]
 for n in NOT_APPLICABLE:
     if n["property_id"] == "C18":
         n["reason"] = "whole-program CLI runs through argparse, file I/O and yaml with string-typed settings: no solver-decidable core (DESIGN.md section 4)"
